@@ -45,11 +45,8 @@ impl Cuboid {
     /// the dot product with `dir`.
     #[cfg(feature = "dim2")]
     pub fn vertex_feature_id(vertex: Point<Real>) -> u32 {
-        // TODO: is this still correct with the f64 version?
-        #[allow(clippy::unnecessary_cast)] // Unnecessary for f32 but necessary for f64.
-        {
-            ((vertex.x.to_bits() >> 31) & 0b001 | (vertex.y.to_bits() >> 30) & 0b010) as u32
-        }
+        // Bit 0 is the sign bit of `x`, bit 1 the sign bit of `y` (for both f32 and f64).
+        (vertex.x.is_sign_negative() as u32) | ((vertex.y.is_sign_negative() as u32) << 1)
     }
 
     /// Return the feature of this cuboid with a normal that maximizes
